@@ -28,6 +28,8 @@ type RoundResult struct {
 	Accepted  int
 	// SelfErr is set when the proposer's own full validation of the block it just built fails
 	// (property C02); SelfPred classifies it, SelfDetail describes the state difference.
+	// HostileCandidates: the proposer's candidate list was replaced by the check (CandidateHook)
+	HostileCandidates bool
 	SelfErr    error
 	SelfPred   string
 	SelfDetail string
@@ -48,6 +50,9 @@ type Ledger struct {
 	gossip    []gossipItem
 	// GossipDrop1in: 1-in-N gossip deliveries are lost (0 = never)
 	GossipDrop1in int
+	// CandidateHook, when set, may replace the candidate list the round's proposer builds its block from
+	// (a proposer with a hostile mempool; the rest of block building is the node's own code). nil = keep.
+	CandidateHook func(p *simnode.Node, honest []*types.Transaction) []*types.Transaction
 }
 
 type gossipItem struct {
@@ -165,7 +170,32 @@ func (l *Ledger) Round(nodes []*simnode.Node) *RoundResult {
 		s.EmptyBlocks++
 	} else {
 		p := el[s.T.Choose("round.proposer", len(el))]
-		prop, pv, st := s.Propose(p)
+		var prop *types.BlockProposal
+		var pv interface{}
+		var st string
+		var hostile []*types.Transaction
+		if l.CandidateHook != nil {
+			p.Do(func() { hostile = l.CandidateHook(p, p.Pool.BuildBlockTransactions()) })
+		}
+		if hostile != nil {
+			pv, st = p.Do(func() {
+				_, proof := p.Chain.GetProposerSortition()
+				prop = p.Chain.VerifProposeBlockWithTxs(proof, hostile)
+			})
+			rr.HostileCandidates = true
+			if pv == nil && prop != nil {
+				// a block that the proposer's own validation refuses is of no use to anybody: the round goes on with an honest one
+				if enc, err := prop.Block.ToBytes(); err == nil {
+					if verr, vpv, _ := s.Validate(p, enc); verr != nil || vpv != nil {
+						s.R.Probe("block_from_hostile_candidates_refused_by_own_validation")
+						rr.HostileCandidates = false
+						prop, pv, st = s.Propose(p)
+					}
+				}
+			}
+		} else {
+			prop, pv, st = s.Propose(p)
+		}
 		if pv != nil {
 			s.R.Violate("C02:propose-panicked", "node %d: %v\n%s", p.ID, pv, st)
 		}
